@@ -56,7 +56,7 @@ def make_scratch(tag):
     return d
 
 
-def worker_env(overlay, hashseed='0'):
+def worker_env(overlay, hashseed='0', pyopt=False):
     env = dict(os.environ)
     env['PYTHONPATH'] = overlay + os.pathsep + VERIF
     env['PYTHONHASHSEED'] = str(hashseed)
@@ -66,6 +66,9 @@ def worker_env(overlay, hashseed='0'):
     env['HDF5_USE_FILE_LOCKING'] = 'FALSE'
     env['TZ'] = 'UTC'
     env.pop('PYTHONSTARTUP', None)
+    env.pop('PYTHONOPTIMIZE', None)
+    if pyopt:
+        env['PYTHONOPTIMIZE'] = '1'        # assertions stripped, as under `python -O`
     return env
 
 
@@ -75,7 +78,7 @@ def spawn(spec, overlay, hashseed='0', cwd=None, env_extra=None):
     with open(sp, 'w') as f:
         json.dump(spec, f)
     log = open(spec['out'] + '.stderr', 'w')
-    env = worker_env(overlay, hashseed)
+    env = worker_env(overlay, hashseed, pyopt=bool(spec.get('pyopt')))
     env.update(env_extra or {})
     p = subprocess.Popen([PY, WORKER, sp], env=env, stdout=log, stderr=log,
                          cwd=cwd or spec['scratch'])
@@ -106,6 +109,11 @@ def wait_all(procs, timeout_s):
     return []
 
 
+def pyopt_of(run_index):
+    """one run in eight executes in an interpreter with assertions stripped (python -O): an environment a user can be in"""
+    return run_index % 8 == 7
+
+
 def load_known(check):
     p = os.path.join(VERIF, 'known_findings.json')
     if not os.path.exists(p):
@@ -128,11 +136,11 @@ def slug(s):
     return re.sub(r'[^A-Za-z0-9_.=+-]+', '_', s)[:110]
 
 
-def run_replay(check, case, overlay, scratch, conf, timeout_s=300, hashseed='0', extra=None, prior=None, prior_seed=0, prior_tier='quick'):
+def run_replay(check, case, overlay, scratch, conf, timeout_s=300, hashseed='0', extra=None, prior=None, prior_seed=0, prior_tier='quick', pyopt=False):
     out = os.path.join(scratch, 'replay-%d.json' % int(time.time() * 1000))
     spec = {'check': check, 'tier': 'quick', 'seed': 0, 'mode': 'replay', 'case': case, 'out': out,
             'scratch': os.path.join(scratch, 'rp%d' % (int(time.time() * 1000) % 100000)),
-            'prior': prior or [], 'prior_seed': prior_seed, 'prior_tier': prior_tier}
+            'prior': prior or [], 'prior_seed': prior_seed, 'prior_tier': prior_tier, 'pyopt': bool(pyopt)}
     spec.update(extra or {})
     p = spawn(spec, overlay, hashseed)
     hung = wait_all([p], timeout_s)
@@ -191,9 +199,9 @@ def main(argv=None):
         if rp.get('signature', '').endswith('|process|cross_history_state'):
             dt = rp['detail']
             ra = run_replay(check, rp['case'], overlay, scratch, conf, extra=extra_spec, timeout_s=900, prior=dt['prior_A_run_indices'],
-                            prior_seed=rp.get('verif_seed', 0), prior_tier=rp.get('tier', 'quick'))
+                            prior_seed=rp.get('verif_seed', 0), prior_tier=rp.get('tier', 'quick'), pyopt=rp.get('pyopt', False))
             rb = run_replay(check, rp['case'], overlay, scratch, conf, extra=extra_spec, timeout_s=900, prior=dt['prior_B_run_indices'],
-                            prior_seed=rp.get('verif_seed', 0), prior_tier=rp.get('tier', 'quick'))
+                            prior_seed=rp.get('verif_seed', 0), prior_tier=rp.get('tier', 'quick'), pyopt=rp.get('pyopt', False))
             print('digest after prior histories A: %s (recorded %s); after B: %s (recorded %s)' % (
                 ra.get('digest'), dt['digest_after_prior_A'], rb.get('digest'), dt['digest_after_prior_B']))
             if ra.get('digest') and rb.get('digest') and ra.get('digest') != rb.get('digest'):
@@ -203,7 +211,7 @@ def main(argv=None):
             print('replay did not reproduce a dependence on earlier histories')
             return 0
         r = run_replay(check, rp['case'], overlay, scratch, conf, extra=extra_spec, timeout_s=900, prior=rp.get('prior_run_indices'),
-                       prior_seed=rp.get('verif_seed', 0), prior_tier=rp.get('tier', 'quick'))
+                       prior_seed=rp.get('verif_seed', 0), prior_tier=rp.get('tier', 'quick'), pyopt=rp.get('pyopt', False))
         sigs = [v['signature'] for v in r.get('violations', [])]
         if r.get('hang') or r.get('crash'):
             print('replay: worker %s' % ('hung' if r.get('hang') else 'crashed: ' + r.get('stderr', '')[-500:]))
@@ -236,6 +244,7 @@ def main(argv=None):
     nb = max(1, min(W * 4, nruns // 25 or 1))
     if nb < W:
         nb = W
+    nb = ((nb + 7) // 8) * 8        # all run indices of a batch share index % 8, hence the interpreter mode (pyopt_of)
     queue = []
     for b in range(nb):
         idx = list(range(args.start + b, args.start + nruns, nb))
@@ -252,6 +261,7 @@ def main(argv=None):
                 'out': os.path.join(scratch, 'b%04d.json' % seq[0]), 'scratch': os.path.join(scratch, 'b%04d' % seq[0]),
                 'per_run_cap_s': cap, 'deadline_s': deadline}
         spec.update(extra_spec)
+        spec['pyopt'] = bool(os.environ.get('VERIF_FORCE_PYOPT')) or pyopt_of(idx[0])
         p = spawn(spec, overlay)
         p._t0 = time.time()
         return p
@@ -350,7 +360,7 @@ def main(argv=None):
                 harness_errors.append({'run': hc['run_index'], 'error': 'cannot regenerate case after worker death'})
                 continue
             case = json.load(open(gen_out))
-            r = run_replay(check, case, overlay, scratch, conf, timeout_s=cap + 30, extra=extra_spec)
+            r = run_replay(check, case, overlay, scratch, conf, timeout_s=cap + 30, extra=extra_spec, pyopt=pyopt_of(hc['run_index']))
             kind = 'hang' if r.get('hang') else ('crash' if r.get('crash') else None)
             if kind is None:
                 harness_errors.append({'run': hc['run_index'],
@@ -372,14 +382,22 @@ def main(argv=None):
         all_idx = sorted(int(k) for k in digests)
         want = 96 if args.tier == 'quick' else 400
         stepk = max(1, len(all_idx) // want)
+        if stepk % 2 == 0:
+            stepk += 1          # an odd stride visits every residue class modulo 8 (both interpreter modes)
         sample_idx = all_idx[::stepk][:want]
         W2 = 3 if W != 3 else 2
         procs2 = []
+        force_py = bool(os.environ.get('VERIF_FORCE_PYOPT'))
+        groups = []
+        plain = [i for i in sample_idx if not (force_py or pyopt_of(i))]
+        opt = [i for i in sample_idx if (force_py or pyopt_of(i))]
         for w in range(W2):
-            idx = sample_idx[w::W2]
-            if not idx:
-                continue
-            spec = {'check': check, 'tier': args.tier, 'seed': seed, 'indices': idx,
+            if plain[w::W2]:
+                groups.append((plain[w::W2], False))
+        if opt:
+            groups.append((opt, True))
+        for w, (idx, py) in enumerate(groups):
+            spec = {'check': check, 'tier': args.tier, 'seed': seed, 'indices': idx, 'pyopt': py,
                     'out': os.path.join(scratch, 'd%02d.json' % w), 'scratch': os.path.join(scratch, 'd%02d' % w),
                     'per_run_cap_s': cap, 'minimise_budget_s': 0.0}
             spec.update(extra_spec)
@@ -412,8 +430,8 @@ def main(argv=None):
             confirmed = False
             if os.path.exists(gen_out):
                 case_x = json.load(open(gen_out))
-                ra = run_replay(check, case_x, overlay, scratch, conf, extra=extra_spec, timeout_s=900, prior=prior_orig, prior_seed=seed, prior_tier=args.tier)
-                rb = run_replay(check, case_x, overlay, scratch, conf, extra=extra_spec, timeout_s=900, prior=prior_re, prior_seed=seed, prior_tier=args.tier)
+                ra = run_replay(check, case_x, overlay, scratch, conf, extra=extra_spec, timeout_s=900, prior=prior_orig, prior_seed=seed, prior_tier=args.tier, pyopt=pyopt_of(ri))
+                rb = run_replay(check, case_x, overlay, scratch, conf, extra=extra_spec, timeout_s=900, prior=prior_re, prior_seed=seed, prior_tier=args.tier, pyopt=pyopt_of(ri))
                 confirmed = ra.get('digest') == d_orig and rb.get('digest') == d_re
             if confirmed:
                 sig = '%s|process|cross_history_state' % check
@@ -524,12 +542,14 @@ def main(argv=None):
             n_reported += 1
             continue
         # confirm in a fresh interpreter
-        r = run_replay(check, v['case'], overlay, scratch, conf, extra=extra_spec)
+        v_py = bool(os.environ.get('VERIF_FORCE_PYOPT')) or pyopt_of(v['run_index'])
+        rec['pyopt'] = v_py
+        r = run_replay(check, v['case'], overlay, scratch, conf, extra=extra_spec, pyopt=v_py)
         sigs = [x['signature'] for x in r.get('violations', [])]
         if sig not in sigs and v.get('original_case') is not None and v['original_case'] != v['case']:
             # the minimised history does not reproduce in a fresh interpreter (e.g. the failure reads stale memory):
             # fall back to the un-minimised history of the run that showed it
-            r = run_replay(check, v['original_case'], overlay, scratch, conf, extra=extra_spec)
+            r = run_replay(check, v['original_case'], overlay, scratch, conf, extra=extra_spec, pyopt=v_py)
             sigs = [x['signature'] for x in r.get('violations', [])]
             if sig in sigs:
                 rec['case'] = v['original_case']
@@ -542,7 +562,7 @@ def main(argv=None):
             for k in [1, 4, 16, 64, len(pri)]:
                 suffix = pri[-k:]
                 r = run_replay(check, v.get('original_case') or v['case'], overlay, scratch, conf, extra=extra_spec, timeout_s=900,
-                               prior=suffix, prior_seed=seed, prior_tier=args.tier)
+                               prior=suffix, prior_seed=seed, prior_tier=args.tier, pyopt=v_py)
                 sigs = [x['signature'] for x in r.get('violations', [])]
                 if sig in sigs:
                     rec['case'] = v.get('original_case') or v['case']
